@@ -314,14 +314,15 @@ pub fn strategy() -> BoxedStrategy<Case> {
         prob,
         span,
         method,
-        rtol: 10f64.powf(-re),
+        // loose tolerances (1e-3..1e-5.5), so that the single long step is usually accepted
+        rtol: 10f64.powf(-(3.0 + (re - 3.0) * 0.5)),
         atol_rel: 10f64.powf(ar),
         first_step: Some(f),
         max_step: Some(f * g),
         analytic_jac,
         script: Script::Noop(vec![0]),
     });
-    prop_oneof![10 => general.prop_map(mk), 5 => lin.prop_map(mk), 1 => exact, 1 => overlong].boxed()
+    prop_oneof![10 => general.prop_map(mk), 5 => lin.prop_map(mk), 1 => exact, 2 => overlong].boxed()
 }
 
 pub fn run(ctx: &Ctx, known: &[Known]) -> Report {
